@@ -96,13 +96,13 @@ template<class T> static void props(const char* nm, bool series, const T& t, dou
       double dist = std::hypot(r.x - ox, r.y - oy);
       // finding F90 (open): the exact form builds EllipticFunction(_mv) from _mv = 1 - e^2 alone, which recomputes k'^2 = 1 - _mv with a relative
       // error eps/e^2; beyond the branch point the coordinates inherit it.  Class, decided independently of the size of the violation's excess:
-      // exact form, e^2 <= 1e-4, |lon - lon0| >= 90(1 - 2e), and a discrepancy of the position not larger than (eps/e^2)/8 times |(x, y)|
+      // exact form, e^2 <= 1e-4, |lon - lon0| >= 90(1 - 2e), a discrepancy of the position not larger than (eps/e^2)/8 times |(x, y)|, and (for gamma, k) a discrepancy not larger than eps/e^2
       double mu = f * (2 - f); bool f90 = !series && f > 0 && mu <= 1e-4 && ad >= 90 * (1 - 2 * e) && dist <= EPS / mu / 8 * std::hypot(r.x, r.y);
       std::string cls = f90 ? " [class:exact-kp2-cancellation e^2 = " + sg(mu) + "]" : "";
       if (!(dist <= tl.pos())) bad("gauss-krueger-" + N, "position differs from the independent evaluation of the Gauss-Krueger mapping by " + s9(dist) + " (tolerance " + s9(tl.pos()) + "), dx = " + sg(r.x - ox) + " dy = " + sg(r.y - oy) + cls);
       double tz = double(o.sens) * (tl.round + 16 * tl.trunc) / k0 + 64 * EPS;
-      if (!(angd(r.g, og) <= tz / Math::degree() + 4e-14)) bad("convergence-" + N, "gamma differs from -arg of the derivative of the mapping by " + sg(std::remainder(r.g - og, 360.0)) + " deg (tolerance " + sg(tz / Math::degree() + 4e-14) + ")" + cls);
-      if (!(std::fabs(r.k / ok - 1) <= tz)) bad("scale-" + N, "k differs from the magnification of the mapping: k/k_oracle - 1 = " + sg(r.k / ok - 1) + " (tolerance " + sg(tz) + ")" + cls);
+      if (!(angd(r.g, og) <= tz / Math::degree() + 4e-14)) bad("convergence-" + N, "gamma differs from -arg of the derivative of the mapping by " + sg(std::remainder(r.g - og, 360.0)) + " deg (tolerance " + sg(tz / Math::degree() + 4e-14) + ")" + (angd(r.g, og) * Math::degree() <= EPS / mu ? cls : ""));
+      if (!(std::fabs(r.k / ok - 1) <= tz)) bad("scale-" + N, "k differs from the magnification of the mapping: k/k_oracle - 1 = " + sg(r.k / ok - 1) + " (tolerance " + sg(tz) + ")" + (std::fabs(r.k / ok - 1) <= EPS / mu ? cls : ""));
     } else stat("oracle-not-converged");
   }
   // ---- central meridian and equator
@@ -363,6 +363,9 @@ void gv::generate(const std::string& tier, uint64_t seed) {
     }
     // overloads, inspectors, delegation, UTM() instances, the command-line tool
     tmapi::generate(r, i, e.a, e.f, k0, lon0, lat, lon);
+    { double es = (e.f < 0 ? -1 : 1) * std::sqrt(std::fabs(e.f * (2 - e.f)));
+      double tau = r.pick(std::vector<double>{r.range(-10, 10), std::tan(r.range(-1.5707, 1.5707)), 0.0, 1e-300, 1e17, -1e17, r.range(-1, 1) * 1e-8, 70.0 * (1 + r.range(-1, 1) * 1e-3), 1e9});
+      run("tmtau", {hx(es), hx(tau)}); stratum("taupf-tauf"); }
     // exact form: closed forms, starting guesses, Newton loops, kernels against Model/TMExact.lean
     if (use_exact(e.f)) tmx::generate(r, i, e.f);
   }
